@@ -130,6 +130,10 @@ class Extractor:
                 self._process_into(p, out, fn_ranges)
                 i += 1
                 continue
+            if s.startswith("//@FIELDS"):
+                out.extend(self.do_fields(s[len("//@FIELDS"):].strip()).split("\n"))
+                i += 1
+                continue
             if s.startswith("//@EXTRACT"):
                 j = i + 1
                 block = []
@@ -640,6 +644,77 @@ class Extractor:
                                sha256=hashlib.sha256(want_text.encode()).hexdigest()[:16],
                                rules=rules, under_contract=bool(d["spec"] or d["safety"])))
         return text, d["safety"], name
+
+    def do_fields(self, spec):
+        """//@FIELDS <file> :: [<container> ::]* struct NAME AS ident
+        Emits, computed from the struct TEXT of /repo: a spec fn `ident()` giving, per field in declaration
+        order, (name with leading underscores removed, holds a HashMap/HashSet, carries a
+        `serialize_with = ...stabilize_*` attribute)."""
+        m = re.match(r"(.*)\sAS\s+(\w+)$", spec)
+        path, ident = m.group(1).strip(), m.group(2)
+        parts = [p.strip() for p in re.split(r"\s::\s", path)]
+        src = self.source(parts[0])
+        lo, hi = 0, len(src.toks)
+        for cont in parts[1:-1]:
+            if cont.startswith("fn "):
+                itc = src.find_item("fn", cont[3:].strip(), lo, hi, cfg_eval=eval_cfg)
+                lo, hi = itc["body_open"] + 1, itc["body_close"]
+            else:
+                o, c = src.find_container(cont, lo, hi)
+                lo, hi = o + 1, c
+        kind, name = parts[-1].split(None, 1)
+        it = src.find_item(kind, name, lo, hi, cfg_eval=eval_cfg)
+        toks = src.toks
+        bo, bc = it["body_open"], it["body_close"]
+        fields = []
+        q = bo + 1
+        attrs = []
+        while q < bc:
+            t = toks[q]
+            if t.kind == "doc":
+                q += 1
+                continue
+            if t.text == "#" and toks[q + 1].text == "[":
+                e = src.tbl[q + 1]
+                attrs.append(" ".join(x.text for x in toks[q + 2:e]))
+                q = e + 1
+                continue
+            # field: [pub[(..)]] name : type ,
+            if t.text == "pub":
+                q += 1
+                if toks[q].text == "(":
+                    q = src.tbl[q] + 1
+                continue
+            fname = t.text
+            assert toks[q + 1].text == ":", "field syntax at %s" % fname
+            k = q + 2
+            ty = []
+            depth = 0
+            while k < bc:
+                tt = toks[k]
+                if tt.text == "<":
+                    depth += 1
+                elif tt.text == ">" and toks[k - 1].text != "-":
+                    depth -= 1
+                elif tt.text in "([{" and k in src.tbl:
+                    for z in range(k, src.tbl[k] + 1):
+                        ty.append(toks[z].text)
+                    k = src.tbl[k] + 1
+                    continue
+                elif tt.text == "," and depth == 0:
+                    break
+                ty.append(tt.text)
+                k += 1
+            is_hash = ("HashMap" in ty) or ("HashSet" in ty)
+            stab = any("serialize_with" in a and "stabilize_" in a for a in attrs)
+            fields.append((fname.lstrip("_"), is_hash, stab))
+            attrs = []
+            q = k + 1
+        self.items.append(dict(file=parts[0], item="fields of %s %s" % (kind, name), lines="%d" % (src.text.count("\n", 0, toks[it["kw"]].start) + 1),
+                               sha256=hashlib.sha256(src.text[toks[it["start"]].start:toks[it["end"]].end].encode()).hexdigest()[:16], rules={}, under_contract=False))
+        rows = ", ".join('("%s"@, %s, %s)' % (n, "true" if h else "false", "true" if st else "false") for (n, h, st) in fields)
+        return ("// field list of `%s %s` computed from %s (leading underscores removed)\n"
+                "pub open spec fn %s() -> Seq<(Seq<char>, bool, bool)> { seq![%s] }") % (kind, name, parts[0], ident, rows)
 
     def _angle_depth0(self, toks, lo, q):
         """is the comma at q outside any <...> generic argument list (scanning from the field start)?"""
